@@ -50,7 +50,8 @@ pub fn analyze_layout(bytes: &[u8]) -> Option<Vec<(U256, usize, Option<usize>)>>
     });
     match r {
         Ok(Ok(l)) => Some(l.slots().iter().map(|s| (s.index.0, s.offset, width(&s.typ))).collect()),
-        _ => None,
+        Ok(Err(_)) => None,
+        Err(_) => { witness("C01", "analyze.panic.layout_programs", format!("{bytes:02x?}"), "PANIC".into(), "layout or error".into()); None }
     }
 }
 
